@@ -141,11 +141,20 @@ func decodeObs(c wal.Codec, bs []byte, withTime bool) (obs string, l raft.Log) {
 			obs = "panic"
 		}
 	}()
+	// decode into a struct that was used before, as raft does when it reuses a raft.Log:
+	// every field must be overwritten
+	l = dirtyLog()
 	err := c.Decode(bs, &l)
 	if err != nil {
 		return "err", l
 	}
 	return "ok " + logFields(&l, withTime), l
+}
+
+// dirtyLog is a raft.Log holding the remains of an earlier use
+func dirtyLog() raft.Log {
+	return raft.Log{Index: 0xdead, Term: 0xbeef, Type: raft.LogType(7), Data: []byte("stale data of an earlier entry"),
+		Extensions: []byte("stale extensions"), AppendedAt: time.Unix(1, 1)}
 }
 
 func logsEqual(a, b *raft.Log) bool {
